@@ -432,7 +432,7 @@ pub fn run(args: &Args) -> i32 {
         let foreign = g % 2 == 0;
         if foreign {
             // the track_ID field of one tfhd
-            let cands: Vec<&crate::refenc::Field> = b.whole.fields.iter().filter(|f| f.path.contains("tfhd") && f.path.ends_with("track_ID")).collect();
+            let cands: Vec<&crate::refenc::Field> = b.whole.fields.iter().filter(|f| f.path.contains("tfhd") && f.path.contains(".track_ID#")).collect();
             if let Some(f) = cands.get(rng.usize_below(cands.len().max(1))) {
                 crate::hostile::put(&mut bytes, f.off, f.width, *rng.pick(&[0u64, 7777, 0xFFFF_FFFF, 0x8000_0000]));
             }
